@@ -263,12 +263,15 @@ def _worker(args):
                 call(rec, "Bf3File.bf2_import", lambda t=t: Bf3File.bf2_import(io.StringIO(t), ty % 2 == 0), label="crafted:second-line-type")
         # grammar-level confusions: every instruction name used as a header comment and vice versa, in front of a data section
         data = ":0000FE00\n:0000350403000011\n:0000FF00\n"
-        for nm in ("SELECT", "SELECT_IF", "CHECK_FWVER", "CRC", "REBOOT", "Firmware", "Creator", "Bf3Update"):
+        # ("load" is the name the parser uses internally for a group of data lines)
+        for nm in ("SELECT", "SELECT_IF", "CHECK_FWVER", "CRC", "REBOOT", "Firmware", "Creator", "Bf3Update", "load", "LOAD", "FOO", ""):
             for form in ("##%s: x\n", "#>%s\n", "#>%s a=b\n", "#>%s FILTER=zz,PROTOCOL=q,VERSIONDESC=1\n", "##%s: 0x\n"):
                 t = "##Bf3Update: 1\n" + (form % nm) + data
                 call(rec, "Bf3File.bf2_import", lambda t=t: Bf3File.bf2_import(io.StringIO(t)), label="crafted:confuse-" + nm)
         for label, t in (("reboot-first", "##Bf3Update: 1\n#>REBOOT\n"), ("checkfwver-twice", "#>CHECK_FWVER VERSIONDESC=*\n#>CHECK_FWVER VERSIONDESC=*\n"),
-                         ("empty", ""), ("only-marker", ":0000FE00\n:0000FF00\n"), ("bad-instr", "#>SELECT\n"), ("cmt-no-colon", "##abc\n")):
+                         ("empty", ""), ("only-marker", ":0000FE00\n:0000FF00\n"), ("bad-instr", "#>SELECT\n"), ("cmt-no-colon", "##abc\n"),
+                         ("instr-load", "#>load\n"), ("cmt-load", "##load: x\n"), ("instr-load-params", "#>load a=b\n"), ("instr-only", "#>\n"),
+                         ("cmt-only", "##\n"), ("cmt-colon-only", "##:\n")):
             call(rec, "Bf3File.bf2_import", lambda t=t: Bf3File.bf2_import(io.StringIO(t)), label="crafted:" + label)
         # ---- fuzz loop
         for j in range(n):
